@@ -103,11 +103,22 @@ func init() {
 				rg.compareWithModel(c03Wrap(gOf().Unrank(0, i)), []string{"e", "x"}, r, true)
 			},
 		}
+		var rgd *evalRig
+		famD := &vf.Family{
+			Name:   "try-nests-under-deadline",
+			Bounds: "the same try forms, evaluated under a caller context whose deadline is an hour away (EVAL then splits the remaining time between body and handler+finally; nothing times out, so the outcome must be the one without a deadline)",
+			Setup:  func(t string) { tier = t; rgd = newEvalRig(false); rgd.ntTraceOnly = true; rgd.farDeadline = true },
+			N:      func(t string) int64 { tier = t; return gOf().Count(0, wOf(t)) },
+			Describe: func(i int64) string { return c03Wrap(gOf().Unrank(0, i)).Lisp() + "   ; under a context with a far deadline" },
+			Run: func(i int64, r *vf.Rec) {
+				rgd.compareWithModel(c03Wrap(gOf().Unrank(0, i)), []string{"e", "x"}, r, true)
+			},
+		}
 		return &vf.Check{
 			ID: "C03", Level: "model_checking",
 			Rule: "every try/catch/finally nest of the bounded grammar runs on the real EVAL and on the definitional interpreter (handler value returned as a value, catch variable scoped to the handler, finally exactly once after body and handler, outcome unchanged by finally); result, thrown payload via ErrorValue, errors.Is for Go errors, and the ordered effect trace must agree; non-trivial = has effects",
 			Assumptions: []string{"a finally body that itself fails is swallowed (README: 'for side effects only')", "payload of unbound-symbol / arity / domain errors is opaque and compared by kind only"},
-			Families: []*vf.Family{fam},
+			Families: []*vf.Family{fam, famD},
 		}
 	})
 }
